@@ -197,9 +197,22 @@ func c20FrameObjectsPerFrame(c *Ctx) {
 			if hf == nil || !strings.HasPrefix(hf.Name(), "handle") || hf.Signature.Recv() == nil || NamedOf(hf.Signature.Recv().Type()) == nil || NamedOf(hf.Signature.Recv().Type()).Obj().Name() != "Canary" {
 				continue
 			}
+			// the per-frame dispatch may live in a method the loop calls once per frame: what that method produces itself is
+			// per frame as well
+			perCall := false
 			if !InLoop(call.Block()) {
-				continue
+				for _, g := range p.FuncsIn(canaryRel) {
+					for _, c2 := range Calls(g) {
+						if c2.Common().StaticCallee() == fn && InLoop(c2.Block()) {
+							perCall = true
+						}
+					}
+				}
+				if !perCall {
+					continue
+				}
 			}
+			inIter := func(b *ssa.BasicBlock) bool { return perCall || InLoop(b) }
 			for ai, a := range call.Common().Args {
 				if ai == 0 {
 					continue
@@ -217,15 +230,17 @@ func c20FrameObjectsPerFrame(c *Ctx) {
 				for _, lf := range leaves(a) {
 					switch x := lf.(type) {
 					case *ssa.Alloc:
-						if !InLoop(x.Block()) || x.Parent() != fn {
+						if !inIter(x.Block()) || x.Parent() != fn {
 							bad = "an object allocated outside the loop (" + p.InstrPos(x) + ")"
 						}
 					case *ssa.Call:
-						if !InLoop(x.Block()) {
+						if !inIter(x.Block()) {
 							bad = "the result of a call outside the loop (" + p.InstrPos(x) + ")"
 						}
+					case *ssa.Parameter:
+						bad = "a parameter of " + shortFn(fn) + " (its origin is not followed)"
 					case *ssa.Extract:
-						if in, isI := x.Tuple.(ssa.Instruction); isI && !InLoop(in.Block()) {
+						if in, isI := x.Tuple.(ssa.Instruction); isI && !inIter(in.Block()) {
 							bad = "the result of a call outside the loop (" + p.InstrPos(in) + ")"
 						}
 					default:
@@ -243,4 +258,52 @@ func c20FrameObjectsPerFrame(c *Ctx) {
 		}
 	}
 	c.Floor(rule, 4, "ethernet frame and IP header handed to handleTCP/handleUDP/handleICMP")
+}
+
+// c20StateAddOnlyFull: a SYN is counted as a probe after its state was entered into the table; handleTCP returns before
+// the knock when StateTable.Add fails. Add may therefore refuse a new state only for want of a free slot – an error
+// return of Add that depends on an existing entry (a look-up with Get, the state or age of what it found) turns a second
+// probe with the same port pair, or a later burst from the same source ports, into a probe that is never reported.
+func c20StateAddOnlyFull(c *Ctx) {
+	p := c.P
+	const rule = "state-add-refuses-only-when-full"
+	add := p.Method(canaryRel, "StateTable", "Add")
+	get := p.Method(canaryRel, "StateTable", "Get")
+	if !c.Anchor(add != nil && add.Blocks != nil, rule, "(*canary.StateTable).Add") {
+		return
+	}
+	var usesGet func(v ssa.Value, depth int, seen map[ssa.Value]bool) bool
+	usesGet = func(v ssa.Value, depth int, seen map[ssa.Value]bool) bool {
+		if v == nil || depth > 8 || seen[v] {
+			return false
+		}
+		seen[v] = true
+		if call, ok := v.(*ssa.Call); ok && get != nil && call.Call.StaticCallee() == get {
+			return true
+		}
+		if in, ok := v.(ssa.Instruction); ok {
+			for _, op := range in.Operands(nil) {
+				if op != nil && *op != nil && usesGet(*op, depth+1, seen) {
+					return true
+				}
+			}
+		}
+		return false
+	}
+	n := 0
+	for i, r := range Returns(add) {
+		rv := RetVals(r)
+		if len(rv) != 1 || IsNilConst(rv[0]) {
+			continue
+		}
+		n++
+		bad := ""
+		for _, dc := range DomConds(r) {
+			if usesGet(dc.V, 0, map[ssa.Value]bool{}) {
+				bad = RenderN(dc.V, 3)
+			}
+		}
+		c.Check(bad == "", rule, fmt.Sprintf("StateTable.Add error return[%d]", i), p.InstrPos(r), "refused only after the scan found no free slot", "Add refuses the new state under a condition on an existing entry (`"+bad+"`): handleTCP returns on that error before the SYN is queued as a knock, so a probe whose port pair matches an entry that is still in the table – a second burst from the same source ports, or a port equal to the scanner's source port – is never reported")
+	}
+	c.Floor(rule, 1, "the table-full return of Add")
 }
